@@ -424,7 +424,7 @@ Qed.
 Lemma rel0_room_request sid h k q : rel0 sid h (fst (room_request h k q)).
 Proof.
   unfold room_request. destruct (room_of h k) as [r|]; [|apply rel0_refl].
-  destruct q as [|users rs|tag|l|l|ic|tag].
+  destruct q as [|users rs|tag|l|l|ic|tag|ok]; [| | | | | | |apply rel0_refl].
   - (* delete *)
     match goal with |- context [fold_sessions h ?int ?f] => set (internals := int); set (g := f) end.
     destruct (fold_sessions h internals g) as [h0 o0] eqn:H0.
@@ -514,7 +514,7 @@ Proof.
   assert (Hpub : forall hh s m, rel0 sid h hh -> rel0 sid h (publish hh s m)).
   { intros hh s m R. eapply rel0_trans; [exact R|apply rel0_publish]. }
   pose proof (rel0_refl sid h) as R0.
-  destruct q as [|users rs|tag|l|l|ic|tag]; cbn [fst]; auto.
+  destruct q as [|users rs|tag|l|l|ic|tag|ok]; cbn [fst]; auto.
   - match goal with |- rel0 _ _ (fold_left ?f ?l ?h0) => apply (wf_fold_left_hub (fun hh => rel0 sid h hh) f l h0) end.
     + match goal with |- rel0 _ _ (fold_left ?f ?l ?h0) => apply (wf_fold_left_hub (fun hh => rel0 sid h hh) f l h0) end; auto.
     + intros hh y Hhh. destruct (aget (h_rs2 hh) (1000000 + y)); auto.
@@ -522,6 +522,10 @@ Proof.
     apply Hpub. match goal with |- rel0 _ _ (fold_left ?f ?l ?h0) => apply (wf_fold_left_hub (fun hh => rel0 sid h hh) f l h0) end; auto.
     intros hh [[i icv] pm] Hhh. destruct i; auto. destruct pm; auto.
   - match goal with |- context [match ?o with [] => _ | _ => _ end] => destruct o end; cbn [fst]; auto.
+  - (* dial-out *)
+    destruct ok; cbn [negb fst]; [|exact R0]. destruct (dialout_session h b) as [x|]; [|exact R0].
+    destruct (send_session h x (SDialout room)) as [h1 o1] eqn:H1. cbn [fst]. apply Hpub.
+    rewrite (fst_eq _ _ _ H1). apply rel0_send_session.
 Qed.
 
 Lemma rel0_do_tick sid h secs : rel0 sid h (fst (do_tick h secs)).
